@@ -50,6 +50,10 @@ pub fn check_case(ctx: &Ctx, st: &mut Stats, c: &Case, tag: &str) {
     if let Some(p) = &plan.path_arg {
         args.push(p.clone());
     }
+    if c.io == 0 && c.csv.len() % 2 == 1 {
+        // OUTPUT names the process's own standard output
+        args.push("/dev/stdout".into());
+    }
     if c.io == 2 {
         // the output file already exists and is longer than what will be written
         let _ = std::fs::write(&output, super::common::stale_content());
@@ -163,9 +167,12 @@ fn csv_of(edges: &[(usize, usize)], names: &[&str], mut rng: Option<&mut Rng>) -
     let mut rng2: Option<&mut Rng> = None;
     if let Some(r) = rng.take() {
         // presentation quirks: duplicates, shuffled rows
-        if !lines.is_empty() && r.chance(1, 3) {
-            let d = lines[r.usize(lines.len())].clone();
-            lines.push(d);
+        if !lines.is_empty() && r.chance(1, 2) {
+            // one to three records are given twice
+            for _ in 0..(1 + r.usize(3)) {
+                let d = lines[r.usize(lines.len())].clone();
+                lines.push(d);
+            }
         }
         r.shuffle(&mut lines);
         rng2 = Some(r);
@@ -192,7 +199,10 @@ fn all_digraphs(nv: usize) -> Vec<Vec<(usize, usize)>> {
     (0..(1u64 << pairs.len())).map(|m| pairs.iter().enumerate().filter(|(i, _)| (m >> i) & 1 == 1).map(|(_, p)| *p).collect()).collect()
 }
 
-const NAME_SETS: [[&str; 8]; 10] = [
+const NAME_SETS: [[&str; 8]; 12] = [
+    // names that differ only in case (ASCII and not)
+    ["a", "A", "b", "B", "ab", "Ab", "aB", "AB"],
+    ["é", "É", "ß", "ss", "ı", "i", "I", "İ"],
     ["a", "b", "c", "d", "e", "f", "g", "h"],
     ["x1", "y_2", "z'", "w", "q9", "_u", "k", "m2"],
     ["é", "λ", "中", "ñ", "ß", "ö", "ü", "å"],
@@ -288,7 +298,7 @@ pub fn run(ctx: &Ctx) -> (Stats, Spec) {
         }
     }
     let spec = Spec {
-        rule: "edge lists: every digraph on 3 vertices (4 vertices: every 4th [quick] / all [thorough]) x {-u} x {-a}, random graphs on 5-6 (thorough: also 7-8) vertices with self-loops, duplicates, one-directional edges, shuffled rows, LF / CRLF line ends, missing final newline and quoted fields, empty and complete graphs; inputs beyond 8 KiB (thousands of duplicate records, vertex names of 4-5 thousand characters); vertex names plain, with ' _ digits, non-ASCII, the pair {x, v_x}, and name families that collide under string concatenation / prefixing ({a, b, a_b, b_a, a_b_a}, {v, v_v, v_, _v}, {n, n1, n10, n_1}); input via file or stdin, output via stdout or file. The emitted text is parsed and evaluated by the reference; for EVERY subset of the vertices 'is a model' must equal 'is a (maximum) clique'. distinct = (edge set, flags); non-trivial = at least one edge and one non-adjacent pair.".into(),
+        rule: "edge lists: every digraph on 3 vertices (4 vertices: every 4th [quick] / all [thorough]) x {-u} x {-a}, random graphs on 5-6 (thorough: also 7-8) vertices with self-loops, duplicates, one-directional edges, shuffled rows, LF / CRLF line ends, missing final newline and quoted fields, empty and complete graphs; inputs beyond 8 KiB (thousands of duplicate records, vertex names of 4-5 thousand characters); vertex names plain, with ' _ digits, non-ASCII, the pair {x, v_x}, names that differ only in case ({a, A, ab, Ab, aB, AB}, {é, É, ı, i, I, İ}), and name families that collide under string concatenation / prefixing ({a, b, a_b, b_a, a_b_a}, {v, v_v, v_, _v}, {n, n1, n10, n_1}); input via file or stdin, output via stdout or file. The emitted text is parsed and evaluated by the reference; for EVERY subset of the vertices 'is a model' must equal 'is a (maximum) clique'. distinct = (edge set, flags); non-trivial = at least one edge and one non-adjacent pair.".into(),
         assumptions: vec![
             "vertex names are identifiers that are not keywords of the formula language (as the statement says)".into(),
             "adjacency: with -u an edge in either direction; without it both directions must be present; self-loops are ignored".into(),
